@@ -185,6 +185,16 @@ pub fn run_batch(sub: &str, file: &str, n: usize, cpu_limit_ms: u64, wall_limit_
         .collect()
 }
 
+/// Make a scratch directory and route every temporary file of this process and
+/// of its children into it (TMPDIR), so that files left behind by killed
+/// children disappear with it. Call before any thread is started.
+pub fn scratch_tmpdir() -> tempfile::TempDir {
+    let dir = tempfile::tempdir().expect("scratch dir");
+    // Safety: called at the start of main, before other threads exist.
+    unsafe { std::env::set_var("TMPDIR", dir.path()) };
+    dir
+}
+
 /// Child side: run `handler(item)` for the items `from..` of the batch file.
 pub fn batch_child_main(handler: &dyn Fn(&vcommon::Value)) {
     let file = std::env::args().nth(2).expect("batch file");
